@@ -614,23 +614,49 @@ Definition exec_add (s : store) (a : addq) (rows : list (list item)) : store * o
   | None => (s, OErr)
   end.
 
-(* DELETE ANNOTATION ?x { sub }: every row must bind x (else the query fails and nothing is
-   removed); then every selected annotation that is still there is removed (what a removal takes
-   with it is gone already when its turn comes) *)
-Definition delete_handles (x : nat) (sub : query) (rows : list (list item)) : option (list nat) :=
+(* DELETE <type> ?x { sub }, <type> being the result type of the level that binds x: every row
+   must bind x (else the query fails and nothing is removed), a text selection cannot be deleted
+   (QuerySyntaxError, nothing removed); then every selected item that is still there is removed
+   the way the direct call removes it (remove_annotation / remove_resource / remove_dataset /
+   remove_data and remove_key in strict mode) - what an earlier removal took with it, or a row
+   that names the same item again, is skipped *)
+Definition delete_items (x : nat) (sub : query) (rows : list (list item)) : option (list item) :=
   let names := names_of sub in
   fold_right (fun row acc =>
                 match acc, row_item names row x with
-                | Some l, Some (IAnn a) => Some (a :: l)
+                | Some l, Some it => Some (it :: l)
                 | _, _ => None
                 end) (Some []) rows.
 
+Definition item_live (s : store) (it : item) : bool :=
+  match it with
+  | IAnn a => match get_ann s a with Some _ => true | None => false end
+  | IRes r => match get_res s r with Some _ => true | None => false end
+  | ISet d => match get_set s d with Some _ => true | None => false end
+  | IData d x => match datum s d x with Some _ => true | None => false end
+  | IKey d k => match get_set s d with
+                | Some ds => match slot (d_keys ds) k with Some _ => true | None => false end
+                | None => false
+                end
+  | IText _ _ _ => false
+  end.
+Definition rm_op (it : item) : option op :=
+  match it with
+  | IAnn a => Some (RmAnn (ByHandle a))
+  | IRes r => Some (RmRes (ByHandle r))
+  | ISet d => Some (RmSet (ByHandle d))
+  | IData d x => Some (RmData (ByHandle d) (ByHandle x) true)
+  | IKey d k => Some (RmKey (ByHandle d) (ByHandle k) true)
+  | IText _ _ _ => None
+  end.
+Definition rm_item (s : store) (it : item) : store :=
+  if item_live s it then match rm_op it with Some o => fst (step s o) | None => s end else s.
+Definition is_text_item (it : item) : bool := match it with IText _ _ _ => true | _ => false end.
+
 Definition exec_delete (s : store) (x : nat) (sub : query) (rows : list (list item)) : store * out :=
-  match delete_handles x sub rows with
-  | Some hs => (fold_left (fun s a => match get_ann s a with
-                                       | Some _ => fst (rm_annotation s (ByHandle a))
-                                       | None => s
-                                       end) hs s, OOk 0)
+  match delete_items x sub rows with
+  | Some its => if existsb is_text_item its then (s, OErr)
+                else (fold_left rm_item its s, OOk 0)
   | None => (s, OErr)
   end.
 
